@@ -170,21 +170,9 @@ Proof.
   unfold set_eqb. rewrite andb_true_iff. intros [H1 H2] x. split; [now apply incl_b_sound|now apply incl_b_sound].
 Qed.
 
-Lemma same_selection_sound ao bo t :
-  same_selection ao None bo (Some t) = true -> ao <> [] /\ Forall cleanP ao /\ t = join_lines ao /\ bo = [].
-Proof.
-  unfold same_selection. rewrite !andb_true_iff. intros [[[H1 H2] H3] H4].
-  repeat split.
-  - intros ->. discriminate.
-  - apply Forall_forall. intros s Hs. apply clean_cleanP. rewrite forallb_forall in H2. now apply H2.
-  - apply (proj1 (list_eqb_spec Z.eqb Z.eqb_eq _ _)). exact H3.
-  - apply (proj1 (list_eqb_spec str_eqb str_eqb_eq _ _)). exact H4.
-Qed.
+(* (the soundness of same_selection follows the shape lemmas below) *)
 
 (* ---- more about splitlines ---------------------------------------------- *)
-
-(* Windows line ends: \r\n is one boundary *)
-Definition join_crlf (ids : list str) : str := flat_map (fun s => s ++ [13; 10]) ids.
 
 Lemma split_from_line_crlf s : forall cur rest, cleanP s ->
   split_from cur false (s ++ 13 :: 10 :: rest) = rev (rev s ++ cur) :: split_from [] false rest.
@@ -218,43 +206,225 @@ Qed.
 Lemma splitlines_clean s : Forall cleanP (splitlines s).
 Proof. apply split_from_clean. intros x []. Qed.
 
+(* ---- every shape a user writes ------------------------------------------ *)
+
+Lemma split_lf_app ids : forall tail, Forall cleanP ids ->
+  split_from [] false (join_lines ids ++ tail) = ids ++ split_from [] false tail.
+Proof.
+  induction ids as [|s r IH]; intros tail Hc; [reflexivity|].
+  inversion Hc as [|s' r' Hs Hr]; subst.
+  cbn [join_lines flat_map]. rewrite <- !app_assoc. cbn [app].
+  rewrite split_from_line by exact Hs. rewrite app_nil_r, rev_involutive.
+  change (flat_map (fun s0 : list Z => s0 ++ [10]) r) with (join_lines r).
+  rewrite IH by exact Hr. reflexivity.
+Qed.
+
+Lemma split_crlf_app ids : forall tail, Forall cleanP ids ->
+  split_from [] false (join_crlf ids ++ tail) = ids ++ split_from [] false tail.
+Proof.
+  induction ids as [|s r IH]; intros tail Hc; [reflexivity|].
+  inversion Hc as [|s' r' Hs Hr]; subst.
+  cbn [join_crlf flat_map]. rewrite <- !app_assoc. cbn [app].
+  rewrite split_from_line_crlf by exact Hs. rewrite app_nil_r, rev_involutive.
+  change (flat_map (fun s0 : list Z => s0 ++ [13; 10]) r) with (join_crlf r).
+  rewrite IH by exact Hr. reflexivity.
+Qed.
+
+Lemma join_sep_with_inv term ids t : join_sep_with term ids = Some t ->
+  exists front last, ids = front ++ [last] /\ last <> [] /\ t = flat_map (fun s => s ++ term) front ++ last.
+Proof.
+  unfold join_sep_with. destruct (rev ids) as [|last front] eqn:E; [discriminate|].
+  destruct last as [|c l]; [discriminate|]. intros H. injection H as <-.
+  exists (rev front), (c :: l). repeat split; [|discriminate].
+  rewrite <- (rev_involutive ids), E. reflexivity.
+Qed.
+
+Lemma Forall_app_last {A} (P : A -> Prop) front last : Forall P (front ++ [last]) -> Forall P front /\ P last.
+Proof.
+  intros H. apply Forall_app in H. destruct H as [Hf Hl]. split; [exact Hf|]. now inversion Hl.
+Qed.
+
+(* a strict shape reads back as exactly the list *)
+Lemma file_of_strict sh ids t : In sh strict_shapes -> Forall cleanP ids -> file_of sh ids = Some t ->
+  splitlines t = ids.
+Proof.
+  intros Hsh Hc Hf. unfold splitlines.
+  destruct sh; cbn [file_of] in Hf; try (exfalso; cbn in Hsh; intuition discriminate).
+  - injection Hf as <-. rewrite <- (app_nil_r (join_lines ids)), split_lf_app by exact Hc.
+    cbn [split_from]. apply app_nil_r.
+  - apply join_sep_with_inv in Hf. destruct Hf as (front & last & -> & Hne & ->).
+    apply Forall_app_last in Hc. destruct Hc as [Hfr Hl].
+    change (flat_map (fun s : list Z => s ++ [10]) front) with (join_lines front).
+    rewrite split_lf_app by exact Hfr. rewrite split_from_last by auto.
+    now rewrite app_nil_r, rev_involutive.
+  - injection Hf as <-. rewrite <- (app_nil_r (join_crlf ids)), split_crlf_app by exact Hc.
+    cbn [split_from]. apply app_nil_r.
+  - apply join_sep_with_inv in Hf. destruct Hf as (front & last & -> & Hne & ->).
+    apply Forall_app_last in Hc. destruct Hc as [Hfr Hl].
+    change (flat_map (fun s : list Z => s ++ [13; 10]) front) with (join_crlf front).
+    rewrite split_crlf_app by exact Hfr. rewrite split_from_last by auto.
+    now rewrite app_nil_r, rev_involutive.
+Qed.
+
+(* a trailing blank line reads back as the list followed by one empty entry *)
+Lemma file_of_blank sh ids t : In sh blank_shapes -> Forall cleanP ids -> file_of sh ids = Some t ->
+  splitlines t = ids ++ [[]].
+Proof.
+  intros Hsh Hc Hf. unfold splitlines.
+  destruct sh; cbn [file_of] in Hf; try (exfalso; cbn in Hsh; intuition discriminate).
+  - injection Hf as <-. now rewrite split_lf_app by exact Hc.
+  - injection Hf as <-. now rewrite split_crlf_app by exact Hc.
+Qed.
+
+Lemma resolve_samples_shape_eq sh ids t : In sh strict_shapes -> ids <> [] -> Forall cleanP ids ->
+  file_of sh ids = Some t -> resolve_samples [] (Some t) = resolve_samples ids None.
+Proof.
+  intros Hsh Hne Hc Hf. unfold resolve_samples. rewrite (file_of_strict sh ids t Hsh Hc Hf).
+  destruct ids; [congruence|reflexivity].
+Qed.
+
+Lemma resolve_ids_shape_eq sh ids t : In sh strict_shapes -> ids <> [] -> Forall cleanP ids ->
+  file_of sh ids = Some t -> resolve_ids false [] (Some t) = resolve_ids false ids None.
+Proof.
+  intros Hsh Hne Hc Hf. unfold resolve_ids. rewrite (file_of_strict sh ids t Hsh Hc Hf).
+  destruct ids; [congruence|reflexivity].
+Qed.
+
+Lemma front_end_shape_eq {A} shs shi samples ids ts ti (run : option (list str) -> option (list str) -> res A) :
+  In shs strict_shapes -> In shi strict_shapes -> samples <> [] -> ids <> [] ->
+  Forall cleanP samples -> Forall cleanP ids -> file_of shs samples = Some ts -> file_of shi ids = Some ti ->
+  front_end false [] (Some ts) [] (Some ti) run = front_end false samples None ids None run.
+Proof.
+  intros. unfold front_end.
+  now rewrite (resolve_samples_shape_eq shs samples ts), (resolve_ids_shape_eq shi ids ti).
+Qed.
+
+(* a file ending in a blank line: the entry point receives one more, empty, entry - which
+   selects nothing unless a row of the data has the empty name *)
+Lemma resolve_blank sh ids t : In sh blank_shapes -> Forall cleanP ids -> file_of sh ids = Some t ->
+  resolve_samples [] (Some t) = Ok (Some (ids ++ [[]]))
+  /\ resolve_ids false [] (Some t) = Ok (Some (ids ++ [[]])).
+Proof.
+  intros Hsh Hc Hf. unfold resolve_samples, resolve_ids. now rewrite (file_of_blank sh ids t Hsh Hc Hf).
+Qed.
+
+Lemma select_blank {X} (key : X -> str) ids rows : ~ In [] (map key rows) ->
+  select key (Some (ids ++ [[]])) rows = select key (Some ids) rows.
+Proof.
+  intros Hn. pose proof (select_unknown_anywhere key [] ids [] rows Hn) as H.
+  rewrite app_nil_r in H. exact H.
+Qed.
+
+(* ---- soundness of same_selection ----------------------------------------- *)
+
+Lemma text_eqb_eq a b : text_eqb a b = true -> a = b.
+Proof. apply (proj1 (list_eqb_spec Z.eqb Z.eqb_eq a b)). Qed.
+
+Lemma written_as_sound sh t ids : written_as sh t ids = true -> file_of sh ids = Some t.
+Proof.
+  unfold written_as. destruct (file_of sh ids) as [f|]; [|discriminate].
+  intros H. apply text_eqb_eq in H. now subst.
+Qed.
+
+Lemma existsb_written shs t ids : existsb (fun sh => written_as sh t ids) shs = true ->
+  exists sh, In sh shs /\ file_of sh ids = Some t.
+Proof.
+  rewrite existsb_exists. intros [sh [Hin H]]. exists sh. split; [exact Hin|now apply written_as_sound].
+Qed.
+
+Lemma file_matches_sound opts t other m : file_matches opts t other = m -> m <> 0 ->
+  opts <> [] /\ Forall cleanP opts /\ other = []
+  /\ exists sh, In sh (if m =? 1 then strict_shapes else blank_shapes) /\ file_of sh opts = Some t.
+Proof.
+  unfold file_matches. intros H Hm.
+  destruct (negb (strs_eqb opts []) && forallb clean opts && strs_eqb other []) eqn:G; [|congruence].
+  rewrite !andb_true_iff in G. destruct G as [[G1 G2] G3].
+  split; [intros ->; discriminate|].
+  split; [apply Forall_forall; intros x Hx; apply clean_cleanP; rewrite forallb_forall in G2; now apply G2|].
+  split; [apply (proj1 (list_eqb_spec str_eqb str_eqb_eq _ _)); exact G3|].
+  destruct (existsb (fun sh => written_as sh t opts) strict_shapes) eqn:E1.
+  - subst m. cbn [Z.eqb Pos.eqb]. now apply existsb_written.
+  - destruct (existsb (fun sh => written_as sh t opts) blank_shapes) eqn:E2; [|congruence].
+    subst m. cbn [Z.eqb]. now apply existsb_written.
+Qed.
+
+Lemma same_selection_sound ao bo t m : same_selection ao None bo (Some t) = m -> m <> 0 ->
+  ao <> [] /\ Forall cleanP ao /\ bo = []
+  /\ exists sh, In sh (if m =? 1 then strict_shapes else blank_shapes) /\ file_of sh ao = Some t.
+Proof. cbn [same_selection]. apply file_matches_sound. Qed.
+
 (* ---- what the checkers' verdicts mean ----------------------------------- *)
 
 Lemma holds_inv_sound v : holds_inv v = true ->
-  (v_sopts v <> [] -> (exists t, v_sfile v = Some t) -> v_exit v = 2 /\ v_got v = None)
+  (v_sopts v <> [] -> (exists t, v_sfile v = Some t) -> v_exit v = 2 /\ v_usage v = true /\ v_got v = None)
   /\ (v_got v = None -> v_exit v <> 0).
 Proof.
   unfold holds_inv. rewrite andb_true_iff. intros [H1 H2]. split.
   - intros Hne [t Ht]. rewrite Ht in H1. destruct (v_sopts v); [congruence|].
-    apply andb_true_iff in H1. destruct H1 as [E G]. apply Z.eqb_eq in E. split; [exact E|].
-    destruct (v_got v); [discriminate|reflexivity].
+    rewrite !andb_true_iff in H1. destruct H1 as [[E U] G]. apply Z.eqb_eq in E. split; [exact E|].
+    split; [exact U|]. destruct (v_got v); [discriminate|reflexivity].
   - intros G. rewrite G in H2. apply negb_true_iff, Z.eqb_neq in H2. exact H2.
 Qed.
 
 Lemma zl_eqb_eq a b : zl_eqb a b = true -> a = b.
 Proof. apply (proj1 (list_eqb_spec Z.eqb Z.eqb_eq a b)). Qed.
 
+Lemma reported_sound demand unk logs msgs : reported demand unk logs msgs = true -> unk <> [] ->
+  (1 <= demand -> new_message logs msgs = true)
+  /\ (2 <= demand -> lenZ unk <= 5 -> forall x, In x unk -> named logs x = true).
+Proof.
+  unfold reported. destruct unk as [|u r]; [congruence|]. intros H _.
+  apply andb_true_iff in H. destruct H as [H1 H2]. split.
+  - intros D. apply orb_true_iff in H1. destruct H1 as [H1|H1]; [apply Z.ltb_lt in H1; lia|exact H1].
+  - intros D L x Hx. rewrite !orb_true_iff in H2. destruct H2 as [[H2|H2]|H2].
+    + apply Z.ltb_lt in H2. lia.
+    + apply Z.ltb_lt in H2. lia.
+    + rewrite forallb_forall in H2. now apply H2.
+Qed.
+
+Lemma holds_unknown_sound k e o msgs : holds_unknown k = true -> c_ref k = Some (e, o, msgs) ->
+  (* ignored: the run behaves as without the unknown entries *)
+  c_exit k = e /\ (e = 0 -> c_out k = o)
+  (* reported *)
+  /\ (c_exit k = 0 -> c_verbose k = true ->
+      reported (demand_samples k) (unknown_of (c_req_s k) (c_known_s k)) (c_logs k) msgs = true
+      /\ reported (demand_ids k) (unknown_of (c_sel_i k) (c_known_i k)) (c_logs k) msgs = true).
+Proof.
+  unfold holds_unknown. intros H R. rewrite R in H. rewrite !andb_true_iff in H.
+  destruct H as [[H1 H2] H3]. apply Z.eqb_eq in H1. split; [exact H1|]. split.
+  - intros E0. apply orb_true_iff in H2. destruct H2 as [H2|H2].
+    + apply negb_true_iff, Z.eqb_neq in H2. congruence.
+    + now apply zl_eqb_eq.
+  - intros E0 V. rewrite !orb_true_iff in H3. destruct H3 as [[H3|H3]|H3].
+    + apply negb_true_iff, Z.eqb_neq in H3. congruence.
+    + rewrite V in H3. discriminate.
+    + now apply andb_true_iff in H3.
+Qed.
+
 Lemma holds_cli_sound k : holds_cli k = true ->
   (* both forms: usage error *)
   (c_both k = true -> c_exit k = 2)
   (* same output as the Python entry point; it fails iff the command line fails *)
-  /\ (c_both k = false -> forall o, c_py k = Ok o -> c_exit k = 0 /\ c_out k = o)
-  /\ (c_both k = false -> forall e, c_py k = Err e -> c_exit k <> 0)
+  /\ (c_both k = false -> c_ids_both k = false -> forall o, c_py k = Ok o -> c_exit k = 0 /\ c_out k = o)
+  /\ (c_both k = false -> c_ids_both k = false -> forall e, c_py k = Err e -> c_exit k <> 0)
   (* an escaping exception means a non-zero exit status *)
   /\ (c_raised k = true -> c_exit k <> 0)
   (* the respelled command line behaves identically *)
-  /\ (forall e o, c_alt k = Some (e, o) -> e = c_exit k /\ (e = 0 -> o = c_out k)).
+  /\ (forall e o, c_alt k = Some (e, o) -> e = c_exit k /\ (e = 0 -> o = c_out k))
+  (* unknown entries are ignored and reported *)
+  /\ holds_unknown k = true.
 Proof.
-  unfold holds_cli. rewrite !andb_true_iff. intros [[[H1 H2] H3] _].
+  unfold holds_cli. rewrite !andb_true_iff. intros [[[[H1 H2] H3] H4] _].
   repeat split.
   - intros B. rewrite B in H1. now apply Z.eqb_eq.
-  - rewrite H in H1. rewrite H0 in H1. apply andb_true_iff in H1. now apply Z.eqb_eq.
-  - rewrite H in H1. rewrite H0 in H1. apply andb_true_iff in H1. destruct H1 as [_ E]. now apply zl_eqb_eq.
-  - intros B e E. rewrite B, E in H1. now apply negb_true_iff, Z.eqb_neq in H1.
+  - rewrite H, H0 in H1. rewrite H5 in H1. apply andb_true_iff in H1. now apply Z.eqb_eq.
+  - rewrite H, H0 in H1. rewrite H5 in H1. apply andb_true_iff in H1. destruct H1 as [_ E]. now apply zl_eqb_eq.
+  - intros B IB e E. rewrite B, IB, E in H1. now apply negb_true_iff, Z.eqb_neq in H1.
   - intros R. rewrite R in H2. cbn [negb orb] in H2. now apply negb_true_iff, Z.eqb_neq in H2.
   - rewrite H in H3. apply andb_true_iff in H3. now apply Z.eqb_eq.
   - intros E0. rewrite H in H3. apply andb_true_iff in H3. destruct H3 as [_ H3].
     apply orb_true_iff in H3. destruct H3 as [H3|H3].
     + apply negb_true_iff, Z.eqb_neq in H3. congruence.
     + now apply zl_eqb_eq.
+  - exact H4.
 Qed.
